@@ -94,7 +94,7 @@ def _first_diff(before, after):
     return None
 
 
-def judge(case, request, res, key_prefix, features="", detail=None, coarse=False, classify=None):
+def judge(case, request, res, key_prefix, features="", detail=None, coarse=False, classify=None, post_check=None):
     """Run `request(project)` -> rope changes (or raises), perform, compare behaviour.
     Returns outcome string.  `features` = extra mechanism text appended to violation keys."""
     from rope.base import exceptions
@@ -170,6 +170,11 @@ def judge(case, request, res, key_prefix, features="", detail=None, coarse=False
                           after=[a[2] or a[1][-300:] for a in after], first_diff=_first_diff(case.baseline, after))
             out = "violation"
         else:
-            res.outcome("preserved")
+            extra = post_check(pyrun.read_project(case.root)) if post_check else None
+            if extra:
+                res.violation(f"{key_prefix}|{extra}|{features}", f"behaviour preserved but: {extra}")
+                out = "violation"
+            else:
+                res.outcome("preserved")
     case.restore()
     return out
